@@ -140,7 +140,11 @@ func faultJobs(tier string) []*Job {
 				if tier != "thorough" && (i+rb+rsrc)%4 != 0 {
 					continue
 				}
-				jobs = append(jobs, fmk("H_fault_r", with(t, "rb", rb, "rsrc", rsrc)))
+				jobs = append(jobs, fmk("H_fault_r", with(t, "rb", rb, "rsrc", rsrc, "ekind", 0)))
+			}
+			// the same with a source failure that wraps io.EOF (still a failure, never the end)
+			if tier == "thorough" || (i+rb)%2 == 0 {
+				jobs = append(jobs, fmk("H_fault_r", with(t, "rb", rb, "rsrc", 0, "ekind", 1)))
 			}
 		}
 	}
@@ -182,9 +186,13 @@ func lifeJobs(tier string) []*Job {
 	// the same call sequences on a concurrent Writer, under every schedule within the delay bound
 	// (the sink is only inspected when no library goroutine can be writing to it)
 	if tier == "thorough" {
-		jobs = append(jobs, cmk("H_life_wc", 2, P("L", 4, "bc", 0, "num", 2)), cmk("H_life_wc", 1, P("L", 5, "bc", 1, "num", 3)))
+		jobs = append(jobs, cmk("H_life_wc", 2, P("L", 4, "bc", 0, "num", 2, "sfail", -1)), cmk("H_life_wc", 1, P("L", 5, "bc", 1, "num", 3, "sfail", -1)))
 	} else {
-		jobs = append(jobs, cmk("H_life_wc", 1, P("L", 4, "bc", 0, "num", 2)), cmk("H_life_wc", 2, P("L", 3, "bc", 1, "num", 3)))
+		jobs = append(jobs, cmk("H_life_wc", 1, P("L", 4, "bc", 0, "num", 2, "sfail", -1)), cmk("H_life_wc", 2, P("L", 3, "bc", 1, "num", 3, "sfail", -1)))
+	}
+	// ... and with the first sink failing at call 1..3 (after the header): no call may hang
+	for sf := 1; sf <= 3; sf++ {
+		jobs = append(jobs, cmk("H_life_wc", 1, P("L", 3, "bc", sf%2, "num", 2, "sfail", sf)))
 	}
 	jobs = append(jobs, concReaderLifeJobs(tier)...)
 	// Reset followed by a change of block size and an input larger than the smaller block size
@@ -284,7 +292,7 @@ func init() {
 			return jobs
 		},
 		Bounds: func(string) []string {
-			return []string{tmpl, "writer faults: the failing call index of the sink is chosen symbolically among all calls of the fault-free run (Write/Flush/Close and ReadFrom deliveries); reader faults: failing call index of the source chosen symbolically, under 4 fragmentation modes (fill, single bytes, data with io.EOF, zero-length reads) and 3 read-back modes",
+			return []string{tmpl, "writer faults: the failing call index of the sink is chosen symbolically among all calls of the fault-free run (Write/Flush/Close and ReadFrom deliveries); reader faults: failing call index of the source chosen symbolically, under 4 fragmentation modes (fill, single bytes, data with io.EOF, zero-length reads) and 3 read-back modes; the injected source failure is a plain error or an error that wraps io.EOF",
 				"concurrent operation (ConcurrencyOption(2), thorough also 3): sink failing at call 0..5 (0..7) of six call sequences and ReadFrom source failing at call 0..1, under every schedule with at most 1 (thorough 2) delays: the failure is returned by some call, nothing is written after it, the sink holds a prefix of the sequential fault-free output; concurrent Reader with the source failing at call 0..7: never a clean end"}
 		}, Outside: frame2Outside, Assumptions: frameAssumptions,
 		Filter: func(id string) bool { return hasPrefix(id, "cfault-") || hasPrefix(id, "wfault-") || hasPrefix(id, "rfault-") || hasPrefix(id, "rfrag-") || hasPrefix(id, "no-panic") || hasPrefix(id, "unwind") }}
@@ -300,10 +308,13 @@ func init() {
 			}
 			return []string{fmt.Sprintf("every sequence of %d calls; Writer alphabet {Apply(toggle block checksum), Write(2 symbolic bytes), ReadFrom(1 byte), Flush, Close, Reset(new sink), Reset(same sink)}; Reader alphabet {Read(3), Read(>= block), Read(empty buffer), WriteTo, Size, Reset(new source)} over a valid frame followed by 0/3/8 trailing bytes; opcodes chosen symbolically, compared after every call with the reference model of the statement", L),
 				"concurrent Reader (ConcurrencyOption(2)): every sequence of 3 calls (thorough 4) of the Reader alphabet, including Reset before the end of the stream, under every schedule with at most 1 delay (thorough also 3 calls / 2 delays), same model",
+				"concurrent Writer whose first sink fails at call 1..3: every sequence of 3 calls under every schedule with at most 1 delay returns (no deadlock), and after Reset the model applies again",
 				"concurrent Writer (ConcurrencyOption 2 and 3): every sequence of 4 calls under every schedule with at most 1 delay and of 3 calls with at most 2 (thorough: 4 calls / 2 delays, 5 calls / 1 delay), same model minus the sequential-only Flush clause; the sink is inspected only after Close or Reset",
 				"Reset scenarios: {nothing, Write, Flush, ReadFrom} x {closed, not closed} on a Writer with block size A, then Reset, Apply(BlockSizeOption(B)), a 70000-byte input and Close, for (A,B) in {(4M,64K),(64K,256K),(256K,64K),(64K,64K)}: output must equal a brand-new Writer's and be a valid frame with block size B"}
 		}, Outside: []string{"longer sequences; options other than block checksum in Apply"}, Assumptions: append([]string{concAssumptions[0], concAssumptions[1], "after a rejected Apply (options after the first write) the object may be failed: the model then only requires that calls return"}, frameAssumptions...),
-		Filter: func(id string) bool { return hasPrefix(id, "w-") || hasPrefix(id, "w2-") || hasPrefix(id, "r-") || hasPrefix(id, "no-panic") || hasPrefix(id, "unwind") }}
+		Filter: func(id string) bool {
+			return id == "conc-deadlock" || hasPrefix(id, "w-") || hasPrefix(id, "w2-") || hasPrefix(id, "r-") || hasPrefix(id, "no-panic") || hasPrefix(id, "unwind")
+		}}
 	checkDefs["C18"] = &CheckDef{Property: "C18", Jobs: creaderJobs,
 		Bounds: func(tier string) []string {
 			return []string{"sources of 0..5 symbolic bytes and 40/70-byte compressible inputs, options block size x block checksum x content checksum x content size x level; the first 3 (thorough 4) Read calls use a buffer size chosen symbolically from {0,1,3,6,7,8,40,70000}, then 64-byte buffers until the end; source fragmentation 4 modes; source failing at a symbolic call index"}
